@@ -1,6 +1,9 @@
 """Regenerate coq/theories/gen_*.v from /repo's current sources (constants, tables, template).
-A file is rewritten only when its content changes, so unchanged sources cause no rebuild."""
-import os, re, json
+Values are computed by the harness, i.e. by calling the very code scrut links; a file is rewritten only
+when its content changes, so unchanged sources cause no rebuild."""
+import os, re, json, subprocess
+
+HEADER = "(* GENERATED from /repo by bin/gen.py on every run -- do not edit *)\n"
 
 
 def write_if_changed(path, content):
@@ -11,6 +14,15 @@ def write_if_changed(path, content):
     return False
 
 
-def regenerate(repo, th):
+def regenerate(repo, th, svh=None):
     info = {}
+    svh = svh or os.path.join(os.path.dirname(os.path.dirname(os.path.abspath(__file__))), '.build', 'cargo', 'debug', 'svh')
+    r = subprocess.run([svh, 'consts'], stdout=subprocess.PIPE, stderr=subprocess.PIPE)
+    if r.returncode != 0:
+        raise RuntimeError('svh consts failed: ' + r.stderr.decode()[-500:])
+    body = r.stdout.decode()
+    src = (HEADER + "From Coq Require Import List NArith ZArith Bool.\nImport ListNotations.\nFrom SV Require Import Config.\n"
+           "Local Open Scope N_scope.\n\n" + body)
+    info['gen_Consts.v'] = 'rewritten' if write_if_changed(os.path.join(th, 'gen_Consts.v'), src) else 'unchanged'
+    info['consts'] = [l for l in body.split('\n') if l][:12]
     return info
